@@ -42,9 +42,9 @@ def bounds(tier):
 
 def _sites(tier):
     sites = []
-    vals = list(TRICKY)
+    vals = list(TRICKY) + [v.expr for v in G.A_FULL if v.expr not in TRICKY]
     if tier == "thorough":
-        vals += [v.expr for v in G.universe("quick")[:1500] if v.expr not in TRICKY]
+        vals += [v.expr for v in G.universe("quick")[:1500] if v.expr not in vals]
     for v in vals:
         sites.append({"st": "assert %s == snapshot()" % v, "n": [v]})
         sites.append({"st": "assert %s in snapshot()" % v, "n": [v]})
